@@ -179,6 +179,8 @@ type Snapshot struct {
 	Vals     []ValSnap
 	Pool     [][2]string // denom, amount
 	OwedDelta [][2]string // denom, Dec raw delta of (outstanding + community pool) over this end-block
+	OwedVal   [][3]string // validator, denom, Dec raw delta of its outstanding rewards over this end-block
+	OwedComm  [][2]string // denom, Dec raw delta of the community pool over this end-block
 	Invariant string     // first broken crisis invariant, "" if all hold
 	AppHash  string
 }
@@ -455,23 +457,52 @@ func (e *Exec) applyEnv(v Env) (string, error) {
 	return "", fmt.Errorf("unknown env %s", v.Kind)
 }
 
-func (e *Exec) owedTotals() map[string]*big.Int {
+type Owed struct {
+	Tot  map[string]*big.Int            // denom -> outstanding + community pool (Dec raw)
+	Val  map[string]map[string]*big.Int // validator (address as decimal) -> denom -> outstanding (Dec raw)
+	Comm map[string]*big.Int            // denom -> community pool (Dec raw)
+}
+
+func (e *Exec) owedTotals() Owed {
 	ctx := e.C.Ctx()
-	tot := map[string]*big.Int{}
-	add := func(dcs sdk.DecCoins) {
+	o := Owed{Tot: map[string]*big.Int{}, Val: map[string]map[string]*big.Int{}, Comm: map[string]*big.Int{}}
+	add := func(m map[string]*big.Int, dcs sdk.DecCoins) {
 		for _, dc := range dcs {
-			if tot[dc.Denom] == nil {
-				tot[dc.Denom] = new(big.Int)
+			if m[dc.Denom] == nil {
+				m[dc.Denom] = new(big.Int)
 			}
-			tot[dc.Denom].Add(tot[dc.Denom], dc.Amount.BigInt())
+			m[dc.Denom].Add(m[dc.Denom], dc.Amount.BigInt())
 		}
 	}
-	e.C.App.DistrKeeper.IterateValidatorOutstandingRewards(ctx, func(_ sdk.ValAddress, r distrtypes.ValidatorOutstandingRewards) bool {
-		add(r.Rewards)
+	e.C.App.DistrKeeper.IterateValidatorOutstandingRewards(ctx, func(v sdk.ValAddress, r distrtypes.ValidatorOutstandingRewards) bool {
+		add(o.Tot, r.Rewards)
+		k := addrInt(v).String()
+		if o.Val[k] == nil {
+			o.Val[k] = map[string]*big.Int{}
+		}
+		add(o.Val[k], r.Rewards)
 		return false
 	})
-	add(e.C.App.DistrKeeper.GetFeePool(ctx).CommunityPool)
-	return tot
+	cp := e.C.App.DistrKeeper.GetFeePool(ctx).CommunityPool
+	add(o.Tot, cp)
+	add(o.Comm, cp)
+	return o
+}
+
+func deltaPairs(before, after map[string]*big.Int) [][2]string {
+	var out [][2]string
+	for d, a := range after {
+		b := before[d]
+		if b == nil {
+			b = new(big.Int)
+		}
+		delta := new(big.Int).Sub(a, b)
+		if delta.Sign() != 0 {
+			out = append(out, [2]string{d, delta.String()})
+		}
+	}
+	sort.Slice(out, func(i, j int) bool { return out[i][0] < out[j][0] })
+	return out
 }
 
 // Run executes the history and returns one observation per event.
@@ -553,17 +584,18 @@ func (e *Exec) Run() []Obs {
 			}
 			after := e.owedTotals()
 			snap := e.snapshot()
-			for d, a := range after {
-				b := before[d]
-				if b == nil {
-					b = new(big.Int)
-				}
-				delta := new(big.Int).Sub(a, b)
-				if delta.Sign() != 0 {
-					snap.OwedDelta = append(snap.OwedDelta, [2]string{d, delta.String()})
+			snap.OwedDelta = deltaPairs(before.Tot, after.Tot)
+			snap.OwedComm = deltaPairs(before.Comm, after.Comm)
+			var vks []string
+			for k := range after.Val {
+				vks = append(vks, k)
+			}
+			sort.Strings(vks)
+			for _, k := range vks {
+				for _, p := range deltaPairs(before.Val[k], after.Val[k]) {
+					snap.OwedVal = append(snap.OwedVal, [3]string{k, p[0], p[1]})
 				}
 			}
-			sort.Slice(snap.OwedDelta, func(i, j int) bool { return snap.OwedDelta[i][0] < snap.OwedDelta[j][0] })
 			// all registered invariants, evaluated on the state that is about to be committed
 			func() {
 				defer func() {
